@@ -342,6 +342,33 @@ def run_case(ctx, case, model=True):
     except Exception as e:
         ctx.count("constructor_rejects", core.error_class(e))
         return False
+    if k == "gearbox":
+        # the same gearbox inside a geared main engine: the engine-side power its run-point method works out is the gearbox's own
+        # conversion of the shaft-side power, in either direction (D136: reverse power - a PTI above the shaft load - was divided by
+        # the efficiency like forward power and came out larger than it went in)
+        try:
+            me = plants.build_mechanical_component({"kind": "main_engine", "name": "me", "shaft_line": 1,
+                                                    "engine": {"rated": rated, "speed": 750.0, "bsfc": [200.0]},
+                                                    "gearbox": {"rated": rated, "curve": case["curve"]}})
+        except Exception as e:
+            ctx.count("geared_engine_rejected", core.error_class(e))
+            me = None
+        if me is not None:
+            for pw in case["powers"]:
+                for arg in (float(pw), np.array([pw, pw], dtype=float)):
+                    try:
+                        me.get_engine_run_point_from_power_out_kw(arg)
+                    except Exception as e:
+                        if pw >= 0:
+                            ctx.fail("predicate", "geared-engine-raises-" + core.error_class(e), f"shaft power {pw}: {type(e).__name__}: {e}", where)
+                        continue
+                    eng_side = float(np.asarray(me.engine.power_output, dtype=float).reshape(-1)[0])
+                    own = float(np.asarray(comp.get_power_input_from_bidirectional_output(float(pw))[0]))
+                    ctx.count("geared_engine_power", "reverse" if pw < 0 else ("forward" if pw > 0 else "zero"))
+                    if abs(eng_side) > abs(pw) * (1 + 1e-12) + 1e-9 and pw < 0:
+                        ctx.fail("predicate", "energy-created-geared-engine", f"{-pw} kW go into the gearbox from the shaft, {-eng_side} kW arrive at the engine", where)
+                    elif abs(eng_side - own) > 1e-9 * max(1.0, rated):
+                        ctx.fail("predicate", "geared-engine-not-gearbox-conversion", f"shaft {pw} kW: engine side {eng_side}, the gearbox's own conversion {own}", where)
     if k in ("basic", "gearbox"):
         conv_checks(ctx, comp, rated, case["curve"], case["powers"], where, strict=case.get("strict", False))
     elif k == "machine":
